@@ -35,7 +35,7 @@ REM = ["rem_forms", "rem_int_forms", "div_euclid_forms", "div_euclid_int_forms"]
 CMPX = ["cmp8::" + n for n in ("derived_ops", "x_i8f0_u16f0", "x_i16f3_u8f8", "x_i32f16_u32f0", "x_i8f2_i32f31", "x_u64f0_i8f7",
                                 "x_i64f20_u16f16", "x_i32f0_u64f32", "x_i128f0_u128f0", "x_i128f127_i8f0", "same_type_eq_ord")]
 CMPINT = ["cmp8::" + n for n in ("i8_vs_int_i8", "i8_vs_int_u8", "u8_vs_int_i16", "i8_vs_int_u64", "u8_vs_int_i128", "i8_vs_int_usize", "u8_vs_int_isize")]
-CONVINT = ["conv8::" + n for n in ("i8f_i8", "i8f_u8", "u8f_i8", "u8f_u16", "i8f_i32", "u8f_i64", "i8f_u128", "i8f_i128", "u8f_usize", "i8f_isize")]
+CONVINT = ["conv8::" + n for n in ("i8f_i8", "i8f_u8", "u8f_i8", "u8f_u16", "i8f_i32", "u8f_i64", "i8f_u128", "i8f_i128", "u8f_usize", "i8f_isize", "i8f_bool", "u8f_bool")]
 CONVX = ["conv8::" + n for n in ("x_i32f16_i8f4", "x_u8f8_i64f40", "x_i64f60_u16f2", "x_i16f0_u64f48", "x_u32f31_i32f31", "x_i8f7_u8f7", "from_impls", "lossy_from_impls")]
 L9 = ["l%d" % i for i in range(9)]
 F9 = ["f%d" % i for i in range(9)]
@@ -130,11 +130,11 @@ PROPERTIES = {
     },
     "C11": {
         "level": "proof",
-        "verus_units": ["arith_widen", "arith128", "widediv", "nofrac", "fracops", "round@*", "transc", "leaves", "cmp@*", "fromfixed@*", "fromfloat@*", "wrapping", "traitfwd@*", "intconv", "floatglue"],
+        "verus_units": ["arith_widen", "arith128", "widediv", "nofrac", "fracops", "round@*", "transc", "leaves", "cmp@*", "fromfixed@*", "fromfloat@*", "wrapping", "traitfwd@*", "intconv", "floatglue", "trig"],
         "kani": [{"harness": h, "classes": ["panic"]} for h in
                  _mods("arith8", ["i4f4", "i0f8", "u4f4", "u0f8"], FORMS) + ["arith8::abs_forms_i8"] + TFH
                  + ["float::check_to_f32", "float::check_to_f64", "float::check_kind_f32", "float::check_kind_f64"]
-                 + _mods("rem8", ["i4f4", "i1f7", "u4f4"], REM) + CONVX + ["conv8::i8f_i8", "conv8::u8f_u16", "conv8::s4::i8_to_u8", "conv8::s4::u8_to_i8"]
+                 + _mods("rem8", ["i4f4", "i1f7", "u4f4"], REM) + CONVX + ["conv8::i8f_i8", "conv8::u8f_u16", "conv8::i8f_bool", "conv8::u8f_bool", "conv8::s4::i8_to_u8", "conv8::s4::u8_to_i8"]
                  + _mods("wrap8", ["i4f4", "u0f8"], ["arith_ops", "bit_and_shift_ops", "rounding_and_conversion"])
                  + ["transc::exp_i9f23", "transc::sin_i9f23"]],
         "explanation": "Profiles differ only through overflow / shift-amount checks and debug assertions.  Both back ends verify under the "
@@ -170,15 +170,16 @@ PROPERTIES = {
     },
     "C12": {
         "level": "proof",
-        "verus_units": ["transc", "fracops", "nofrac"],
-        "kani": ["transc::exp_i9f23", "transc::sin_i9f23", "transc::cos_i9f23", "transc::cos_i32f32"],
+        "verus_units": ["transc", "fracops", "nofrac", "trig"],
+        "kani": ["transc::const_values", "transc::exp_i9f23", "transc::sin_i9f23", "transc::cos_i9f23", "transc::cos_i32f32"],
         "kani_thorough": ["transc::sqrt_i9f23", "transc::log2_i9f23", "transc::ln_i9f23", "transc::sqrt_u9f23", "transc::tan_i9f23",
                           "transc::sin_i32f32", "transc::sin_i64f64", "transc::exp_i32f32"],
-        "explanation": "sqrt (Newton-loop invariant), exp, pow, powi, ln, log2 verified (Verus) as written, generic over every supported (S, D), against trait-level contracts of "
-                       "Fixed: no panic-class obligation remains, Err for non-positive logarithms; the conventions 0^y, x^0, x^1 of pow / powi are "
-                       "postconditions.  sin, cos, tan, sqrt, log2_inner (iterator adapters / Newton loop) by Kani on I9F23 (whole domain resp. "
-                       "|x| <= 200) and on I32F32 / I64F64 for |x| <= 200",
-        "not_covered": ["sin / cos / tan / cordic_rotation / log2_inner (iterator adapters) for types other than I9F23, I32F32, I64F64"],
+        "explanation": "sqrt (Newton-loop invariant), exp, pow, powi, ln, log2 (unit transc) and sin, cos (unit trig: exact range reduction, folding into "
+                       "[-pi/2, pi/2], cos for |x| <= 200) verified (Verus) as written, generic over every supported type, against trait-level "
+                       "contracts of Fixed: no panic-class obligation remains, Err for non-positive logarithms; the conventions 0^y, x^0, x^1 of "
+                       "pow / powi are postconditions.  tan, cordic_rotation, log2_inner (iterator adapters) by Kani on I9F23 (whole domain "
+                       "resp. |x| <= 200) and on I32F32 / I64F64 for |x| <= 200",
+        "not_covered": ["tan / cordic_rotation / log2_inner (iterator adapters) for types other than I9F23, I32F32, I64F64"],
         "assumptions": ["trait-level contracts of Fixed / FixedSigned are the statements proved for the inherent methods in units nofrac / fracops; "
                         "the trait_delegate! forwarders are not verified",
                         "axioms ax_from_const, ax_from_src, ax_cmp_const (conversions from the I9F23 constants are lossless, cross-type comparison is exact: C04 / C03)",
@@ -186,16 +187,19 @@ PROPERTIES = {
     },
     "C17": {
         "level": "proof",
-        "verus_units": ["transc"],
-        "kani": ["transc::exp_i9f23", "transc::sin_i9f23", "transc::cos_i9f23", "transc::cos_i32f32",
+        "verus_units": ["transc", "trig"],
+        "kani": ["transc::const_values", "transc::exp_i9f23", "transc::sin_i9f23", "transc::cos_i9f23", "transc::cos_i32f32",
                  {"harness": "transc::sin_ticks_i9f23_whole_domain", "unwind_is_violation": True}],
         "kani_thorough": ["transc::sqrt_i9f23", "transc::log2_i9f23", "transc::ln_i9f23", "transc::sqrt_u9f23", "transc::tan_i9f23",
                           "transc::sin_i32f32", "transc::sin_i64f64", "transc::exp_i32f32",
                           {"harness": "transc::sin_ticks_i32f32_whole_domain", "unwind_is_violation": True}],
-        "explanation": "every Kani harness reads the hook iteration counter after the call and asserts ticks <= 4 * width + 64 (loops closed by "
-                       "unwinding assertions); in the generic Verus unit every loop is a `for` over a range bounded by frac_nbits() <= 128",
-        "not_covered": ["pow (= exp o ln, each bounded) has no harness of its own; types other than I9F23 / I32F32 / I64F64 for the data-dependent loops "
-                        "of log2_inner and sin"],
+        "explanation": "Verus (generic over every supported type): sqrt, exp and sin carry a ghost iteration counter (R14) that every loop body "
+                       "increments; each loop has an invariant bounding it (for-loops: in step with the loop variable; the two range-reduction "
+                       "loops of sin: at most one round each after the exact remainder) and `assert(vticks <= 4 * w + 64)` stands at every exit; "
+                       "while / loop loops get `decreases bound - vticks`.  ln, log2, pow, cos have no loops of their own.  Kani: every harness "
+                       "reads the hook iteration counter after the call and asserts ticks <= 4 * width + 64 (loops closed by unwinding assertions)",
+        "not_covered": ["log2_inner and cordic_rotation (iterator adapters): iteration counts by Kani on I9F23 / I32F32 / I64F64 only, assumed (25 resp. "
+                        "not counted) in the Verus units; the counter of a caller includes a callee's loops only where the template adds them at the call site"],
     },
     "C18": {
         "level": "proof",
